@@ -6,7 +6,7 @@
    The transport (connect / finish_connect / disconnect methods, the descriptor) is abstract: its answers are
    inputs of the pass.  No proofs in this file. *)
 From Coq Require Import List NArith ZArith Bool.
-From PM Require Import Base.Bytes Base.Outcome Base.Dec Gen.GenConsts Model.ScriptAst Model.Enqueue Model.Script.
+From PM Require Import Base.Bytes Base.Outcome Base.Dec Gen.GenConsts Gen.GenCbuf Model.ScriptAst Model.Enqueue Model.Script.
 Import ListNotations.
 Local Open Scope Z_scope.
 
@@ -23,14 +23,28 @@ Record device : Type := mkDevice {
   dv_retry_count : Z;
   dv_last_ping : Z;
   dv_succ_conn : Z;
-  dv_succ_acts : Z
+  dv_succ_acts : Z;
+  dv_from_size : Z                       (* dev->from->size: the circular buffer only ever grows (cbuf_shrink is a stub);
+                                            it decides how many bytes one read() asks for *)
 }.
-Definition upd_sdev f d := mkDevice (f (dv d)) (dv_scripts d) (dv_timeout d) (dv_ping_period d) (dv_cstate d) (dv_logged_in d) (dv_has_fd d) (dv_acts d) (dv_last_retry d) (dv_retry_count d) (dv_last_ping d) (dv_succ_conn d) (dv_succ_acts d).
-Definition set_conn (cs : Z) (li fd : bool) d := mkDevice (dv d) (dv_scripts d) (dv_timeout d) (dv_ping_period d) cs li fd (dv_acts d) (dv_last_retry d) (dv_retry_count d) (dv_last_ping d) (dv_succ_conn d) (dv_succ_acts d).
-Definition set_acts x d := mkDevice (dv d) (dv_scripts d) (dv_timeout d) (dv_ping_period d) (dv_cstate d) (dv_logged_in d) (dv_has_fd d) x (dv_last_retry d) (dv_retry_count d) (dv_last_ping d) (dv_succ_conn d) (dv_succ_acts d).
-Definition set_retry (lr rc : Z) d := mkDevice (dv d) (dv_scripts d) (dv_timeout d) (dv_ping_period d) (dv_cstate d) (dv_logged_in d) (dv_has_fd d) (dv_acts d) lr rc (dv_last_ping d) (dv_succ_conn d) (dv_succ_acts d).
-Definition set_last_ping x d := mkDevice (dv d) (dv_scripts d) (dv_timeout d) (dv_ping_period d) (dv_cstate d) (dv_logged_in d) (dv_has_fd d) (dv_acts d) (dv_last_retry d) (dv_retry_count d) x (dv_succ_conn d) (dv_succ_acts d).
-Definition set_stats (c a : Z) d := mkDevice (dv d) (dv_scripts d) (dv_timeout d) (dv_ping_period d) (dv_cstate d) (dv_logged_in d) (dv_has_fd d) (dv_acts d) (dv_last_retry d) (dv_retry_count d) (dv_last_ping d) c a.
+Definition upd_sdev f d := mkDevice (f (dv d)) (dv_scripts d) (dv_timeout d) (dv_ping_period d) (dv_cstate d) (dv_logged_in d) (dv_has_fd d) (dv_acts d) (dv_last_retry d) (dv_retry_count d) (dv_last_ping d) (dv_succ_conn d) (dv_succ_acts d) (dv_from_size d).
+Definition set_conn (cs : Z) (li fd : bool) d := mkDevice (dv d) (dv_scripts d) (dv_timeout d) (dv_ping_period d) cs li fd (dv_acts d) (dv_last_retry d) (dv_retry_count d) (dv_last_ping d) (dv_succ_conn d) (dv_succ_acts d) (dv_from_size d).
+Definition set_acts x d := mkDevice (dv d) (dv_scripts d) (dv_timeout d) (dv_ping_period d) (dv_cstate d) (dv_logged_in d) (dv_has_fd d) x (dv_last_retry d) (dv_retry_count d) (dv_last_ping d) (dv_succ_conn d) (dv_succ_acts d) (dv_from_size d).
+Definition set_retry (lr rc : Z) d := mkDevice (dv d) (dv_scripts d) (dv_timeout d) (dv_ping_period d) (dv_cstate d) (dv_logged_in d) (dv_has_fd d) (dv_acts d) lr rc (dv_last_ping d) (dv_succ_conn d) (dv_succ_acts d) (dv_from_size d).
+Definition set_last_ping x d := mkDevice (dv d) (dv_scripts d) (dv_timeout d) (dv_ping_period d) (dv_cstate d) (dv_logged_in d) (dv_has_fd d) (dv_acts d) (dv_last_retry d) (dv_retry_count d) x (dv_succ_conn d) (dv_succ_acts d) (dv_from_size d).
+Definition set_stats (c a : Z) d := mkDevice (dv d) (dv_scripts d) (dv_timeout d) (dv_ping_period d) (dv_cstate d) (dv_logged_in d) (dv_has_fd d) (dv_acts d) (dv_last_retry d) (dv_retry_count d) (dv_last_ping d) c a (dv_from_size d).
+Definition set_from_size x d := mkDevice (dv d) (dv_scripts d) (dv_timeout d) (dv_ping_period d) (dv_cstate d) (dv_logged_in d) (dv_has_fd d) (dv_acts d) (dv_last_retry d) (dv_retry_count d) (dv_last_ping d) (dv_succ_conn d) (dv_succ_acts d) x.
+
+(* cbuf_write_from_fd(dev->from, fd, -1): asks for all the free space, or for one chunk (growing the buffer first,
+   up to MAX_DEV_BUF) when there is none; at the maximum size the oldest bytes are overwritten *)
+Definition from_free (d : device) : Z := dv_from_size d - Z.of_nat (length (sd_from (dv d))).
+Definition read_len (d : device) : Z := if from_free d <=? 0 then CBUF_CHUNK else from_free d.
+Definition grow_size (size n : Z) : Z :=
+  let m := size + CBUF_META + n in
+  let m := m + (CBUF_CHUNK - m mod CBUF_CHUNK) in
+  Z.min m (MAX_DEV_BUF + CBUF_META) - CBUF_META.
+Definition after_read_size (d : device) : Z :=
+  if (from_free d <=? 0) && (dv_from_size d <? MAX_DEV_BUF) then grow_size (dv_from_size d) CBUF_CHUNK else dv_from_size d.
 
 Definition connected (d : device) : bool := Z.eqb (dv_cstate d) DEV_CONNECTED.
 
@@ -44,10 +58,13 @@ Definition SITE_CONNECT_HASFD : nat := 24.   (* transport connect: assert(fd == 
 Inductive cplan := ConnNow | ConnPending | ConnFail.
 Record passin : Type := mkPassin {
   pi_hup : bool; pi_err : bool; pi_nval : bool; pi_out : bool; pi_in : bool;      (* revents *)
-  pi_read : option text;                 (* what a read delivers: None = error or EOF *)
+  pi_read : option text;                 (* what a read delivers (at most read_len bytes): None = error or EOF *)
   pi_wrote : option nat;                 (* how many bytes a write accepts: None = error *)
   pi_finish_ok : bool;                   (* finish_connect succeeds *)
-  pi_plans : list cplan                  (* answers of connect(), one per attempt in this pass *)
+  pi_plans : list cplan;                 (* answers of connect(), one per attempt in this pass *)
+  pi_pre : option (text * text)          (* the transport's preprocess method applied to the bytes just read (telnet filter of
+                                            device_tcp.c): (what stays in dev->from in place of the raw bytes, option replies
+                                            appended to dev->to); None = no preprocess method, or nothing read *)
 }.
 
 (* _update_timeout on an optional time-out (None = timerclear) *)
@@ -139,68 +156,77 @@ Section Dev.
     complete d h ++
     flat_map (fun a => complete d (set_err (if Z.eqb res ACT_EEXPFAIL then ACT_EABORT else res) a)) rest.
 
+  Definition timeout_err (d : device) : Z :=
+    if negb (connected d) then ACT_ECONNECTTIMEOUT else if negb (dv_logged_in d) then ACT_ELOGINTIMEOUT else ACT_EEXPFAIL.
+  Definition timeout_tele (d : device) (act : action) : list ev :=
+    if a_tele act then
+      [EvTele (a_client act)
+         (if negb (connected d) then (bslit "connect(") ++ sd_name (dv d) ++ (bslit "): timeout")
+          else msg_recv (dv d) (memstr (firstn (Z.to_nat MAX_DEV_BUF) (sd_from (dv d)))))]
+    else [].
+
+  (* result of one iteration of _process_action's while loop *)
+  Inductive pa_res : Type :=
+  | PaDone (d : device) (store : list arglist) (tmo : option Z) (plans : list cplan) (evs : list ev)   (* the loop ends *)
+  | PaNext (d : device) (store : list arglist) (tmo : option Z) (evs : list ev).                       (* a statement finished: again *)
+
+  (* the error branch: complete the head, abort the rest, and reconnect if the device was connected (then `break`) *)
+  Definition fail_and_reconnect (now : Z) (d : device) (act : action) (rest : list action) (store : list arglist)
+             (tmo : option Z) (plans : list cplan) (pre : list ev) : outcome pa_res :=
+    let evs := pre ++ fail_queue d act rest in
+    let d1 := set_acts [] d in
+    if connected d1 then
+      match reconnect now d1 tmo plans with
+      | Ok (d2, e2, tmo2, pl) => Ok (PaDone d2 store tmo2 pl (evs ++ e2))
+      | Exit c s => Exit c s | Abort s => Abort s | MemErr s => MemErr s | Hang s => Hang s
+      end
+    else Ok (PaDone d1 store tmo plans evs).
+
+  Definition pa_step (now : Z) (d : device) (store : list arglist) (tmo : option Z) (plans : list cplan) : outcome pa_res :=
+    match dv_acts d with
+    | [] => Ok (PaDone d store tmo plans [])
+    | act0 :: rest =>
+      match a_exec act0 with
+      | [] => Abort SITE_NO_CTX
+      | _ =>
+        let stamp := match a_stamp act0 with Some t => t | None => now end in
+        let act := set_stamp (Some stamp) act0 in
+        let limit := stamp + dv_timeout d in
+        if limit <=? now then
+          fail_and_reconnect now d (set_err (timeout_err d) act) rest store tmo plans (timeout_tele d act)       (* timed out *)
+        else if negb (connected d) then
+          Ok (PaDone (set_acts (act :: rest) d) store (upd_tmo tmo (limit - now)) plans [])                     (* stalled: not connected *)
+        else
+          match do_while rmatch compress short_circuit 8 now (dv d) act store [] None with
+          | Ok ((fin, sd', act', store', evs), dt) =>
+            let d1 := upd_sdev (fun _ => sd') d in
+            let tmo1 := match dt with Some v => upd_tmo tmo v | None => tmo end in
+            if negb fin then
+              Ok (PaDone (set_acts (act' :: rest) d1) store' (upd_tmo tmo1 (limit - now)) plans evs)            (* stalled *)
+            else if Z.eqb (a_err act') ACT_ESUCCESS then
+              let act'' := advance act' in
+              match a_exec act'' with
+              | [] =>
+                  let d2 := if Z.eqb (a_com act'') PM_LOG_IN then set_conn (dv_cstate d1) true (dv_has_fd d1) d1 else d1 in
+                  let d3 := set_stats (dv_succ_conn d2) (dv_succ_acts d2 + 1) (set_acts rest d2) in
+                  Ok (PaNext d3 store' tmo1 (evs ++ complete d2 act''))
+              | _ => Ok (PaNext (set_acts (act'' :: rest) d1) store' tmo1 evs)
+              end
+            else fail_and_reconnect now d1 act' rest store' tmo1 plans evs
+          | Exit c s => Exit c s | Abort s => Abort s | MemErr s => MemErr s | Hang s => Hang s
+          end
+      end
+    end.
+
   Fixpoint process_action (fuel : nat) (now : Z) (d : device) (store : list arglist) (tmo : option Z) (plans : list cplan) (acc : list ev)
     : outcome (device * list arglist * option Z * list cplan * list ev) :=
     match fuel with
     | O => Hang 2
     | S f =>
-      match dv_acts d with
-      | [] => Ok (d, store, tmo, plans, acc)
-      | act :: rest =>
-        match a_exec act with
-        | [] => Abort SITE_NO_CTX
-        | _ =>
-          let stamp := match a_stamp act with Some t => t | None => now end in
-          let act := set_stamp (Some stamp) act in
-          let limit := stamp + dv_timeout d in
-          if limit <=? now then
-            (* timed out *)
-            let err := if negb (connected d) then ACT_ECONNECTTIMEOUT
-                       else if negb (dv_logged_in d) then ACT_ELOGINTIMEOUT else ACT_EEXPFAIL in
-            let act := set_err err act in
-            let tl := if a_tele act then
-                        [EvTele (a_client act)
-                           (if negb (connected d) then (bslit "connect(") ++ sd_name (dv d) ++ (bslit "): timeout")
-                            else msg_recv (dv d) (memstr (firstn (Z.to_nat MAX_DEV_BUF) (sd_from (dv d)))))]
-                      else [] in
-            let evs := tl ++ fail_queue d act rest in
-            let d1 := set_acts [] d in
-            if connected d1 then
-              match reconnect now d1 tmo plans with
-              | Ok (d2, e2, tmo2, pl) => Ok (d2, store, tmo2, pl, acc ++ evs ++ e2)     (* break *)
-              | Exit c s => Exit c s | Abort s => Abort s | MemErr s => MemErr s | Hang s => Hang s
-              end
-            else Ok (d1, store, tmo, plans, acc ++ evs)
-          else if negb (connected d) then
-            Ok (set_acts (act :: rest) d, store, upd_tmo tmo (limit - now), plans, acc)       (* stalled: not connected *)
-          else
-            match do_while rmatch compress short_circuit 8 now (dv d) act store [] None with
-            | Ok ((fin, sd', act', store', evs), dt) =>
-              let d1 := upd_sdev (fun _ => sd') d in
-              let tmo1 := match dt with Some v => upd_tmo tmo v | None => tmo end in
-              if negb fin then
-                Ok (set_acts (act' :: rest) d1, store', upd_tmo tmo1 (limit - now), plans, acc ++ evs)
-              else if Z.eqb (a_err act') ACT_ESUCCESS then
-                let act'' := advance act' in
-                match a_exec act'' with
-                | [] =>
-                    let d2 := if Z.eqb (a_com act'') PM_LOG_IN then set_conn (dv_cstate d1) true (dv_has_fd d1) d1 else d1 in
-                    let d3 := set_stats (dv_succ_conn d2) (dv_succ_acts d2 + 1) (set_acts rest d2) in
-                    process_action f now d3 store' tmo1 plans (acc ++ evs ++ complete d2 act'')
-                | _ => process_action f now (set_acts (act'' :: rest) d1) store' tmo1 plans (acc ++ evs)
-                end
-              else
-                let evs2 := fail_queue d1 act' rest in
-                let d2 := set_acts [] d1 in
-                if connected d2 then
-                  match reconnect now d2 tmo1 plans with
-                  | Ok (d3, e3, tmo3, pl) => Ok (d3, store', tmo3, pl, acc ++ evs ++ evs2 ++ e3)
-                  | Exit c s => Exit c s | Abort s => Abort s | MemErr s => MemErr s | Hang s => Hang s
-                  end
-                else Ok (d2, store', tmo1, plans, acc ++ evs ++ evs2)
-            | Exit c s => Exit c s | Abort s => Abort s | MemErr s => MemErr s | Hang s => Hang s
-            end
-        end
+      match pa_step now d store tmo plans with
+      | Ok (PaDone d' store' tmo' pl' evs) => Ok (d', store', tmo', pl', acc ++ evs)
+      | Ok (PaNext d' store' tmo' evs) => process_action f now d' store' tmo' plans (acc ++ evs)
+      | Exit c s => Exit c s | Abort s => Abort s | MemErr s => MemErr s | Hang s => Hang s
       end
     end.
 
@@ -231,9 +257,20 @@ Section Dev.
       | Ok (false, true, d1, e1) => Ok (false, d1, e1)
       | Ok (false, false, d1, e1) =>
           if pi_in pin then
+            let d1g := set_from_size (after_read_size d1) d1 in      (* the buffer grows before read() is called *)
             match pi_read pin with
-            | None | Some [] => Ok (true, d1, e1)
-            | Some b => Ok (false, upd_sdev (fun s => set_from (lastn (Z.to_nat MAX_DEV_BUF) (sd_from s ++ b)) s) d1, e1 ++ [EvRead (length b)])
+            | None | Some [] => Ok (true, d1g, e1)
+            | Some b =>
+                (* the raw bytes go through the circular buffer first (overwriting the oldest when full) ... *)
+                let d2 := upd_sdev (fun s => set_from (lastn (Z.to_nat MAX_DEV_BUF) (sd_from s ++ b)) s) d1g in
+                (* ... then dev->preprocess(dev, n) rewrites the last n bytes of the buffer and may queue replies *)
+                let d3 := match pi_pre pin with
+                          | None => d2
+                          | Some (kept, reply) =>
+                              upd_sdev (fun s => set_to (sd_to s ++ reply)
+                                                   (set_from (firstn (length (sd_from s) - length b) (sd_from s) ++ kept) s)) d2
+                          end in
+                Ok (false, d3, e1 ++ [EvRead (length b)])
             end
           else Ok (false, d1, e1)
       | Exit c s => Exit c s | Abort s => Abort s | MemErr s => MemErr s | Hang s => Hang s
